@@ -146,7 +146,8 @@ theorem top_createTopic {s : St} (h : TopInv s) (ph : Nat) (n : String) (k : Boo
           unfold hasTopic at hm ⊢
           simp [List.any_append, hm]
 
-theorem top_createCft {s : St} (h : TopInv s) (r : TopicRef) (n : String) : TopInv (createCft s r n).1 := by
+theorem top_createCft {s : St} (h : TopInv s) (r : TopicRef) (n : String) (v : Bool) :
+    TopInv (createCft s r n v).1 := by
   unfold createCft
   split
   · exact h
@@ -154,23 +155,25 @@ theorem top_createCft {s : St} (h : TopInv s) (r : TopicRef) (n : String) : TopI
     split
     · exact h
     · rename_i hex
-      simp only
       split
       · exact h
-      · refine ⟨h.writers, ?_, ?_⟩
-        · intro rd hrd
-          rcases h.readers rd hrd with h1 | h1
-          · exact Or.inl h1
-          · refine Or.inr ?_
-            unfold hasCft at h1 ⊢
-            simp [List.any_append, h1]
-        · intro c hc
-          simp only [List.mem_append, List.mem_singleton] at hc
-          rcases hc with hc | hc
-          · exact h.cfts c hc
-          · subst hc
-            unfold hasTopic
-            simpa using hex
+      · simp only
+        split
+        · exact h
+        · refine ⟨h.writers, ?_, ?_⟩
+          · intro rd hrd
+            rcases h.readers rd hrd with h1 | h1
+            · exact Or.inl h1
+            · refine Or.inr ?_
+              unfold hasCft at h1 ⊢
+              simp [List.any_append, h1]
+          · intro c hc
+            simp only [List.mem_append, List.mem_singleton] at hc
+            rcases hc with hc | hc
+            · exact h.cfts c hc
+            · subst hc
+              unfold hasTopic
+              simpa using hex
 
 theorem top_createWriter {s : St} (h : TopInv s) (r : GroupRef) (t : String) (m : Option Nat) (c : Bool) :
     TopInv (createWriter s r t m c).1 := by
@@ -464,7 +467,7 @@ theorem top_step {s : St} (h : TopInv s) (op : Op) : TopInv (step s op).1 := by
   | deleteSub via r => exact top_deleteSub h via r
   | createTopic ph n k => exact top_createTopic h ph n k
   | deleteTopic via r => exact top_deleteTopic h via r
-  | createCft r n => exact top_createCft h r n
+  | createCft r n v => exact top_createCft h r n v
   | deleteCft ph n => exact top_deleteCft h ph n
   | createWriter r t m c => exact top_createWriter h r t m c
   | deleteWriter via w => exact top_deleteWriter h via w
